@@ -1,7 +1,338 @@
 import Aqv.Base.Proto
-open Aqv Aqv.Proto
+import Aqv.Model.TxPool
+open Aqv Aqv.Proto Aqv.TxPool
 
-/-- stub driver for C15 (answers every case line with "bad-op"); replaced when the property is built. -/
-def handle (l : String) : String := let _ := l; "bad-op\tagree"
+/-!
+  Model driver for C15 (trace validation).  One case line is one observed transition of the real pool:
+
+    cfg=… gp= mg= ac=… pe=… qu=… all=… op=…  TAB  res=… gp= mg= ac=… pe=… qu=… all=…
+
+  The driver (1) evaluates the Spec clauses (`Inv`, `Limits` where the operation ends with the pool-wide enforcement,
+  the replacement rule, the reorg re-injection clause) on the observed post-state, and (2) checks that the observed
+  transition is one the model allows: the eviction oracle is inferred from the observed post-state, the model is run
+  with it and must reproduce the post-state (items, nonces, locals, `all`, error classes; `costcap`/`gascap` only have
+  to be sound upper bounds because their exact value depends on the order of equal-price evictions).
+-/
+
+def nat! (s : String) : Nat := s.toNat?.getD 0
+
+def parseTx (s : String) : Option Tx :=
+  match s.splitOn ":" with
+  | [a, n, p, g, v] => some ⟨nat! a, nat! n, nat! p, nat! g, nat! v⟩
+  | _ => none
+
+def parseTxs (s : String) : List Tx :=
+  if s == "-" || s == "" then [] else (s.splitOn ",").filterMap parseTx
+
+def renderTx (t : Tx) : String := s!"{t.sender}:{t.nonce}:{t.price}:{t.gas}:{t.value}"
+def renderTxs (l : List Tx) : String := if l.isEmpty then "-" else ",".intercalate (l.map renderTx)
+
+def kv (fs : List String) (k : String) : String :=
+  match fs.find? (fun f => f.startsWith (k ++ "=")) with
+  | some f => strDrop f (k.length + 1)
+  | none => ""
+
+def parseCfg (s : String) : Cfg :=
+  match (s.splitOn ",").map nat! with
+  | [pl, pb, asl, gs, aq, gq, nl, intr] => ⟨pl, pb, asl, gs, aq, gq, nl == 1, intr⟩
+  | _ => ⟨1, 10, 16, 4096, 64, 1024, false, 21000⟩
+
+def lookupD {α : Type} (l : List (Nat × α)) (a : Nat) (d : α) : α :=
+  match l.find? (fun p => p.1 == a) with
+  | some p => p.2
+  | none => d
+
+def parseLists (strict : Bool) (s : String) : List (Nat × TxL) :=
+  if s == "-" || s == "" then []
+  else (s.splitOn ";").filterMap (fun e =>
+    match e.splitOn "/" with
+    | [a, cc, gc, txs] => some (nat! a, ⟨strict, parseTxs txs, nat! cc, nat! gc⟩)
+    | _ => none)
+
+/-- parse a state (fields gp mg ac pe qu all) -/
+def parseState (cfg : Cfg) (fs : List String) : Pool × Nat :=
+  let ac := (kv fs "ac").splitOn ";" |>.map (fun e => (e.splitOn ":").map nat!)
+  let k := ac.length
+  let get (i : Nat) (j : Nat) : Nat := ((ac.getD i []).getD j 0)
+  let pe := parseLists true (kv fs "pe")
+  let qu := parseLists false (kv fs "qu")
+  let accts := List.range k
+  ({ cfg := cfg,
+     pending := fun a => lookupD pe a (TxL.empty true),
+     queue := fun a => lookupD qu a (TxL.empty false),
+     all := parseTxs (kv fs "all"),
+     pnonce := fun a => get a 2, cnonce := fun a => get a 0, balance := fun a => get a 1,
+     maxGas := nat! (kv fs "mg"), gasPrice := nat! (kv fs "gp"),
+     locals := accts.filter (fun a => get a 3 == 1), accts := accts }, k)
+
+def capsSound (l : TxL) : Bool := l.items.all (fun t => decide (t.cost ≤ l.costcap) && decide (t.gas ≤ l.gascap))
+
+def sameSet (a b : List Tx) : Bool := a.all (· ∈ b) && b.all (· ∈ a)
+
+/-- does the model state `m` reproduce the observed state `o`? (first difference, or none) -/
+def diffState (k : Nat) (m o : Pool) : Option String :=
+  let accts := List.range k
+  match accts.find? (fun a => (m.pending a).items != (o.pending a).items) with
+  | some a => some s!"pending[{a}]: model {renderTxs (m.pending a).items} go {renderTxs (o.pending a).items}"
+  | none =>
+  match accts.find? (fun a => (m.queue a).items != (o.queue a).items) with
+  | some a => some s!"queue[{a}]: model {renderTxs (m.queue a).items} go {renderTxs (o.queue a).items}"
+  | none =>
+  match accts.find? (fun a => m.pnonce a != o.pnonce a) with
+  | some a => some s!"pnonce[{a}]: model {m.pnonce a} go {o.pnonce a}"
+  | none =>
+  if !sameSet m.all o.all then some s!"all: model {renderTxs m.all} go {renderTxs o.all}"
+  else if accts.any (fun a => m.isLocal a != o.isLocal a) then some "locals"
+  else if m.gasPrice != o.gasPrice || m.maxGas != o.maxGas then some "gasprice/maxgas"
+  else if accts.any (fun a => m.cnonce a != o.cnonce a || m.balance a != o.balance a) then some "chain view"
+  else if accts.any (fun a => !capsSound (o.pending a) || !capsSound (o.queue a)) then some "costcap/gascap not an upper bound"
+  else none
+
+/-! ### oracle inference -/
+
+/-- schedule of fairness evictions that turns the pending lists of `m` into those of `o` -/
+def inferSlots (k : Nat) (m o : Pool) : List Addr :=
+  (List.range k).flatMap (fun a =>
+    List.replicate ((m.pending a).items.length - (o.pending a).items.length) a)
+
+/-- account order of the global queue eviction: emptied accounts first, the partially drained one last -/
+def inferQOrder (k : Nat) (m o : Pool) : List Addr :=
+  let ch := (List.range k).filter (fun a => (m.queue a).items.length != (o.queue a).items.length)
+  ch.filter (fun a => (o.queue a).items.isEmpty) ++ ch.filter (fun a => !(o.queue a).items.isEmpty)
+
+/-- promoteExecutables with both oracles inferred from the observed result -/
+def promoteInfer (k : Nat) (s : Pool) (accounts : Option (List Addr)) (o : Pool) : Pool × List Addr × List Addr :=
+  let as := match accounts with
+    | some l => l
+    | none => s.accts
+  let m1 := as.foldl (fun s a => s.promoteAcct a) s
+  let slots := inferSlots k m1 o
+  let m2 := m1.slotEvict slots
+  let qorder := inferQOrder k m2 o
+  (s.promoteExecutables accounts slots qorder, slots, qorder)
+
+def insertByPrice (o : Pool) (t : Tx) : List Tx → List Tx
+  | [] => [t]
+  | x :: xs =>
+    -- cheaper first; among equal prices prefer transactions that are gone in the observed result
+    if t.price < x.price || (t.price == x.price && !decide (t ∈ o.all) && decide (x ∈ o.all)) then t :: x :: xs
+    else x :: insertByPrice o t xs
+
+/-- greedy guess of the Discard victims: the `n` cheapest non-local transactions -/
+def guessVictims (s o : Pool) (n : Nat) : List Tx :=
+  let nl := s.all.filter (fun t => !s.isLocal t.sender)
+  (nl.foldl (fun acc t => insertByPrice o t acc) []).take n
+
+def discardCount (s : Pool) : Nat := s.all.length + 1 - (s.cfg.globalSlots + s.cfg.globalQueue)
+def isFull (s : Pool) : Bool := decide (s.cfg.globalSlots + s.cfg.globalQueue ≤ s.all.length)
+
+/-- victims must be price-minimal among the non-local transactions (what the price heap yields) -/
+def victimsMinimal (s : Pool) (vs : List Tx) : Bool :=
+  let rest := s.all.filter (fun t => !s.isLocal t.sender && !decide (t ∈ vs))
+  vs.all (fun v => rest.all (fun u => decide (v.price ≤ u.price)))
+
+def errName : Err → String
+  | .ok => "ok" | .known => "known" | .oversized => "oversized" | .negative => "negative" | .gaslimit => "gaslimit"
+  | .sender => "sender" | .underpriced => "underpriced" | .nonce => "nonce" | .funds => "funds"
+  | .intrinsic => "intrinsic" | .replace => "replace"
+
+/-- model of a single add with inferred oracles, trying fewer victims when the heap held duplicates -/
+def runAdd (k : Nat) (s o : Pool) (t : Tx) (loc : Bool) (sh : Shape) (res : String) : Option String :=
+  let cnt := if isFull s then discardCount s else 0
+  let tries := (List.range (cnt + 1)).reverse   -- cnt, cnt-1, …, 0
+  let attempt (n : Nat) : Option String :=
+    let vs := guessVictims s o n
+    let loc' := loc && !s.cfg.noLocals
+    let r := s.add t loc' sh vs
+    let fin := if r.1 = .ok && !r.2.1 then (promoteInfer k r.2.2 (some [t.sender]) o).1 else r.2.2
+    -- cross-check against the packaged operation
+    if errName r.1 != res then some s!"result: model {errName r.1} go {res}"
+    else if !victimsMinimal s (s.sanitizeVictims cnt vs) then some "victims not minimal"
+    else diffState k fin o
+  match tries.find? (fun n => (attempt n).isNone) with
+  | some _ => none
+  | none => attempt cnt
+
+structure ManyResult where
+  errs : List Err
+  dirty : List Addr
+  pool : Pool
+  sawFull : Bool
+
+/-- the add loop of addTxsLocked with greedy victims -/
+def runMany (o : Pool) (loc : Bool) : Pool → List Tx → ManyResult
+  | s, [] => ⟨[], [], s, false⟩
+  | s, t :: ts =>
+    let full := isFull s
+    let vs := if full then guessVictims s o (discardCount s) else []
+    let r := s.add t loc .wellformed vs
+    let rest := runMany o loc r.2.2 ts
+    ⟨r.1 :: rest.errs, (if r.1 = .ok && !r.2.1 then [t.sender] else []) ++ rest.dirty, rest.pool, full || rest.sawFull⟩
+
+def runAdds (k : Nat) (s o : Pool) (ts : List Tx) (loc : Bool) (res : String) : Option String × Bool :=
+  let loc' := loc && !s.cfg.noLocals
+  let r := runMany o loc' s ts
+  let fin := if r.dirty.isEmpty then r.pool else (promoteInfer k r.pool (some r.dirty.eraseDups) o).1
+  let rs := if r.errs.isEmpty then "-" else ",".intercalate (r.errs.map errName)
+  if rs != res then (some s!"result: model {rs} go {res}", r.sawFull)
+  else (diffState k fin o, r.sawFull)
+
+def parseView (s : String) (mg : Nat) : View :=
+  let ac := (s.splitOn ";").map (fun e => (e.splitOn "/").map nat!)
+  { nonce := fun a => (ac.getD a []).getD 0 0, balance := fun a => (ac.getD a []).getD 1 0, maxGas := mg }
+
+/-- reset with the code's demotion (`gapFix = false`) or the proposed patch; the oracles of the final enforcement are
+    inferred, the first phase (re-injection) uses greedy victims and the default completion. -/
+def runReset (gapFix : Bool) (k : Nat) (s o : Pool) (v : View) (oldNum newNum : Nat) (reorg : Bool) (disc inc : List Tx) :
+    Option String × Bool :=
+  let depth := if oldNum ≤ newNum then newNum - oldNum else oldNum - newNum
+  let reinject := if reorg && decide (depth ≤ 64) then txDifference disc inc else []
+  let s1 := { s with cnonce := v.nonce, balance := v.balance, maxGas := v.maxGas, pnonce := v.nonce }
+  let r := runMany o false s1 reinject
+  let early :=
+    if r.dirty.isEmpty then false
+    else
+      let m := r.dirty.eraseDups.foldl (fun s a => s.promoteAcct a) r.pool
+      decide (m.cfg.globalSlots < m.pendingCount) || decide (m.cfg.globalQueue < m.queuedCount)
+  let s2 := if reinject.isEmpty || r.dirty.isEmpty then r.pool else r.pool.promoteExecutables (some r.dirty.eraseDups) [] []
+  let s3 := (s2.demoteUnexecutables gapFix).syncNonces
+  let fin := (promoteInfer k s3 none o).1
+  (diffState k fin o, r.sawFull || early)
+
+/-! ### Spec on the observed transition -/
+
+def invFail (k : Nat) (o : Pool) : Option String :=
+  let accts := List.range k
+  match accts.find? (fun a => !o.checkRun a) with
+  | some a => some s!"run:account {a} chain nonce {o.cnonce a} pending {renderTxs (o.pending a).items}"
+  | none =>
+  match accts.find? (fun a => !o.checkAfford a) with
+  | some a => some s!"afford:account {a}"
+  | none =>
+  match accts.find? (fun a => !o.checkUnique a) with
+  | some a => some s!"unique:account {a}"
+  | none => none
+
+def pooledB (s : Pool) (t : Tx) : Bool := decide (s.pooled t)
+
+def slotOccupant (s : Pool) (a n : Nat) : Option Tx :=
+  match getN (s.pending a).items n with
+  | some t => some t
+  | none => getN (s.queue a).items n
+
+/-- replacement clause on the transition (not judged when the pool could have been full: eviction + fresh insert) -/
+def replacementFail (k : Nat) (s o : Pool) (adds : Nat) : Option String :=
+  if s.cfg.globalSlots + s.cfg.globalQueue < s.all.length + adds then none
+  else
+    let olds := (List.range k).flatMap (fun a => occupants s a)
+    match olds.find? (fun t => match slotOccupant o t.sender t.nonce with
+        | some n => n != t && !bumpOK t n s.cfg.priceBump
+        | none => false) with
+    | some t => some s!"bump:slot of {renderTx t}"
+    | none => none
+
+def validNow (o : Pool) (t : Tx) : Bool := o.validateTx t false .wellformed == .ok
+
+/-- reorg clause (judged with slack limits, shallow reorgs; see harness CheckReorg) -/
+def reorgFail (s o : Pool) (oldNum newNum : Nat) (reorg : Bool) (disc inc : List Tx) : Option String :=
+  let depth := if oldNum ≤ newNum then newNum - oldNum else oldNum - newNum
+  if !reorg || depth > 64 then none
+  else
+    let re := txDifference disc inc
+    let total := s.all.length + re.length
+    if total ≥ s.cfg.globalSlots || total ≥ s.cfg.globalQueue || total ≥ s.cfg.accountQueue then none
+    else
+      match re.find? (fun t => validNow o t && !pooledB o t && (slotOccupant o t.sender t.nonce).isNone) with
+      | some t => some s!"reorg-reinject:{renderTx t}"
+      | none => none
+
+/-- is a `run` failure after a reset the known re-injection hole? (chain nonce moved back below the old pending run and
+    the first missing nonce lies in the re-injected range) -/
+def isReinjectHole (k : Nat) (s o : Pool) : Bool :=
+  (List.range k).any (fun a =>
+    !o.checkRun a && decide (o.cnonce a < s.cnonce a) &&
+    (let run := (runFrom (o.cnonce a) (o.pending a).items).1.length
+     decide (o.cnonce a + run < s.cnonce a)))
+
+def handle (l : String) : String :=
+  let (inp, go) := splitCase l
+  let fi := fields inp
+  let fo := fields go
+  let cfg := parseCfg (kv fi "cfg")
+  let (s, k) := parseState cfg fi
+  let (o, _) := parseState cfg fo
+  let res := kv fo "res"
+  let op := (kv fi "op").splitOn ":"
+  let finish (adds : Nat) (limits : Bool) (isReset : Bool) (extra : Option String) (d : Option String) (weakOK : Bool) : String :=
+    -- Spec first
+    let spec : Option String :=
+      match invFail k o with
+      | some w => some (if isReset && w.startsWith "run:" && isReinjectHole k s o then "run-reinject-hole:" ++ strDrop w 4 else w)
+      | none =>
+        if limits && !o.checkLimits (List.range k) then some "limits"
+        else match replacementFail k s o adds with
+          | some w => some w
+          | none => extra
+    match spec with
+    | some w => "spec\tspec-reject:" ++ w
+    | none =>
+      match d with
+      | none => "ok\tagree"
+      | some w => if weakOK then "weak\tagree" else (w ++ "\tspec-ok")
+  match op with
+  | ["check"] => finish 0 false false none none false
+  | "add" :: lc :: shp :: rest =>
+    match parseTx (":".intercalate rest) with
+    | none => "bad-op\tagree"
+    | some t =>
+      let sh : Shape := if shp == "1" then .oversized else if shp == "2" then .badsig else .wellformed
+      finish 1 false false none (runAdd k s o t (lc == "1") sh res) false
+  | "adds" :: lc :: rest =>
+    let ts := parseTxs (":".intercalate rest)
+    let r := runAdds k s o ts (lc == "1") res
+    finish ts.length false false none r.1 r.2
+  | ["price", p] =>
+    finish 0 false false none (diffState k (s.setGasPrice (nat! p)) o) false
+  | "reset" :: oldN :: newN :: _same :: linear :: mg :: view :: rest =>
+    -- rest = disc txs … ":" … inc txs; both lists are comma separated, every tx has 5 colon separated fields
+    let joined := ":".intercalate rest
+    -- split the two lists: tokens are separated by ':'; a list boundary is where a token is "-" or after 5k fields
+    let toks := joined.splitOn ":"
+    let takeList (ts : List String) : List Tx × List String :=
+      match ts with
+      | "-" :: r => ([], r)
+      | _ =>
+        -- consume groups until a group's last field does not contain a comma
+        let rec go (fuel : Nat) (ts : List String) (cur : List String) (acc : List Tx) : List Tx × List String :=
+          match fuel with
+          | 0 => (acc.reverse, ts)
+          | fuel + 1 =>
+            match ts with
+            | [] => (acc.reverse, [])
+            | x :: r =>
+              if cur.length < 4 then go fuel r (cur ++ [x]) acc
+              else
+                -- x is the value field, possibly followed by ",<sender of the next tx>"
+                match x.splitOn "," with
+                | [v] =>
+                  let t := parseTx (":".intercalate (cur ++ [v]))
+                  ((match t with | some t => t :: acc | none => acc).reverse, r)
+                | [v, nxt] =>
+                  let t := parseTx (":".intercalate (cur ++ [v]))
+                  go fuel r [nxt] (match t with | some t => t :: acc | none => acc)
+                | _ => (acc.reverse, r)
+        go (ts.length + 1) ts [] []
+    let (disc, r1) := takeList toks
+    let (inc, _) := takeList r1
+    let v := parseView view (nat! mg)
+    let reorg := linear != "1"
+    let a := runReset false k s o v (nat! oldN) (nat! newN) reorg disc inc
+    let d := match a.1 with
+      | none => none
+      | some w => match (runReset true k s o v (nat! oldN) (nat! newN) reorg disc inc).1 with
+        | none => none
+        | some _ => some w
+    finish disc.length true true (reorgFail s o (nat! oldN) (nat! newN) reorg disc inc) d a.2
+  | _ => "bad-op\tagree"
 
 def main : IO Unit := runLines handle
